@@ -469,6 +469,53 @@ func replaySpan(cs *seqCase, env *rt.Env) rt.Result {
 	return rt.Infra("span: could not place Snapshot inside WriteMulti in 5 attempts")
 }
 
+// replayOrphan looks for the schedule of the Lead_orphan counterexample (store.write looks an entry up, a concurrent
+// DeleteRange empties and removes that entry, entry.add then lands in the orphan): the entry of k holds one value at t=2;
+// goroutine A writes a value at t=1 (never deleted), goroutine B deletes [2,2].  Whatever the order, Values(k) must contain
+// the value at t=1 afterwards.  The window is a few instructions wide, so this is a bounded search (budget in ms); not
+// finding it is not a failure.
+func replayOrphan(cs *seqCase, env *rt.Env) rt.Result {
+	budget := time.Duration(cs.NKeys) * time.Millisecond
+	if budget <= 0 {
+		budget = 3 * time.Second
+	}
+	key := "k"
+	deadline := time.Now().Add(budget)
+	iters := 0
+	for time.Now().Before(deadline) {
+		for j := 0; j < 200; j++ {
+			iters++
+			c := tsm1.NewCache(0, tsdb.EngineTags{})
+			if err := c.WriteMulti(map[string][]tsm1.Value{key: {tsm1.NewIntegerValue(2, 2)}}); err != nil {
+				return rt.Infra(err.Error())
+			}
+			var wg sync.WaitGroup
+			start := make(chan struct{})
+			var werr error
+			wg.Add(2)
+			go func() {
+				defer wg.Done()
+				<-start
+				werr = c.WriteMulti(map[string][]tsm1.Value{key: {tsm1.NewIntegerValue(1, 1)}})
+			}()
+			go func() {
+				defer wg.Done()
+				<-start
+				c.DeleteRange([][]byte{[]byte(key)}, 2, 2)
+			}()
+			close(start)
+			wg.Wait()
+			vs := c.Values([]byte(key))
+			if werr == nil && len(vs) == 0 {
+				return rt.Result{OK: false, Kind: "violation", Step: 2, Patterns: []string{"write_races_delete_range_entry"},
+					Msg: fmt.Sprintf("WriteMulti(k,t=1) || DeleteRange(k,[2,2]) on an entry holding t=2: the write returned nil but Values(k) "+
+						"is empty and Size()=%d (iteration %d)", c.Size(), iters), Got: 0, Want: 1, Evals: iters}
+			}
+		}
+	}
+	return rt.Result{OK: true, Evals: iters, Sig: "orphan-not-observed", Extra: map[string]interface{}{"iterations": iters}}
+}
+
 func adapter(raw json.RawMessage, env *rt.Env) rt.Result {
 	var cs seqCase
 	if err := json.Unmarshal(raw, &cs); err != nil {
@@ -479,6 +526,8 @@ func adapter(raw json.RawMessage, env *rt.Env) rt.Result {
 		return replaySeq(&cs, env)
 	case "span":
 		return replaySpan(&cs, env)
+	case "orphan":
+		return replayOrphan(&cs, env)
 	}
 	return rt.Infra("unknown mode " + cs.Mode)
 }
